@@ -1,4 +1,10 @@
-(* C15 (partial) — the shape of what MultiMarker.of / MarkerUnion.of return.
+(* C15 — normal form of results.
+   PROVED FOR EVERY REACHABLE MARKER (C15_reachable, C15_and / or / only / exclude / multi_of / union_of; Proofs/MarkerInv.v):
+   every marker obtained from atoms, the universal and the empty marker through &, |, MultiMarker.of, MarkerUnion.of
+   (what parse_marker folds with), only() and exclude() / without_extras() - with any fuel, set order and merge oracle
+   that returns atoms - is well shaped at EVERY depth: the children of each conjunction / disjunction are pairwise
+   distinct and none of them is a compound of the same kind (C15_wf_multi / C15_wf_union unfold the predicate).
+   PROVED FOR of() (partial) — the shape of what MultiMarker.of / MarkerUnion.of return.
    For every fuel, set order, merge oracle and every list of markers, the result of
    multi_of / union_of (Model/Marker.v: the of() loops with their fixpoint iteration) is
      - the absorbing marker (<empty> for a conjunction, universal for a disjunction), or
@@ -12,28 +18,9 @@
    union() returning its raw candidate, and union_simplify / intersect_simplify building a
    compound directly - where the property is in fact violated on the unchanged tree (known
    finding "one-child compound"). *)
-From Coq Require Import List Bool NArith Arith String Lia.
-From Verif Require Import PyRes Str Marker MarkerBase.
+From Coq Require Import List Bool NArith Arith String Lia Permutation.
+From Verif Require Import PyRes Str Marker MarkerBase MarkerInv.
 Import ListNotations.
-
-(* pairwise distinct, in the order the code builds lists: every element differs (==) from all earlier ones *)
-Inductive dist : list marker -> Prop :=
-| dist_nil : dist []
-| dist_snoc l x : dist l -> mem_marker x l = false -> dist (l ++ [x]).
-
-Lemma dedup_fold_dist sub : forall acc, dist acc ->
-  dist (fold_left (fun ac s => if mem_marker s ac then ac else ac ++ [s]) sub acc).
-Proof.
-  induction sub as [|s sub IH]; intros acc D; [exact D|]. cbn [fold_left].
-  destruct (mem_marker s acc) eqn:E; apply IH; [exact D | constructor; assumption].
-Qed.
-Lemma flatten_dist same items : forall acc, dist acc -> dist (flatten same items acc).
-Proof.
-  induction items as [|it rest IH]; intros acc D; [exact D|]. cbn [flatten].
-  destruct (same it) as [sub|].
-  - apply IH, dedup_fold_dist, D.
-  - destruct (mem_marker it acc) eqn:E; apply IH; [exact D | constructor; assumption].
-Qed.
 
 Section Of.
   Variable absorbing neutral : marker -> bool.
@@ -122,5 +109,44 @@ Theorem C15_one_child_refuted :
   union_of no_vm (fun _ _ => false) (fun l => l) 30 [MMulti [aP; aO]; MMulti [aP; aN]] = Ret (MMulti [aP]).
 Proof. vm_compute. reflexivity. Qed.
 
-Definition C15_all := (C15_multi_of, C15_union_of, of_body_shape, C15_one_child_refuted).
+
+(* ---- the unconditional part: every reachable marker is well shaped at every depth ---- *)
+Section C15shape.
+  Variable vmerge : bool -> atom -> atom -> option marker.
+  Variable vcontains : atom -> str -> bool.
+  Variable perm : list marker -> list marker.
+  (* _merge_single_markers returns an atom, the universal or the empty marker (checked on every row the code produces) *)
+  Hypothesis vmerge_leaf : forall k a b r, vmerge k a b = Some r -> is_multi r = false /\ is_union r = false.
+  Hypothesis perm_perm : forall l, Permutation (perm l) l.
+
+  Theorem C15_and fuel a b r : mand vmerge vcontains perm fuel a b = Ret r -> wf a = true -> wf b = true -> wf r = true.
+  Proof. exact (mand_wf vmerge vcontains perm vmerge_leaf perm_perm fuel a b r). Qed.
+  Theorem C15_or fuel a b r : mor vmerge vcontains perm fuel a b = Ret r -> wf a = true -> wf b = true -> wf r = true.
+  Proof. exact (mor_wf vmerge vcontains perm vmerge_leaf perm_perm fuel a b r). Qed.
+  Theorem C15_multi_of_wf fuel l r : multi_of vmerge vcontains perm fuel l = Ret r -> forallb wf l = true -> wf r = true.
+  Proof. exact (multi_of_wf vmerge vcontains perm vmerge_leaf perm_perm fuel l r). Qed.
+  Theorem C15_union_of_wf fuel l r : union_of vmerge vcontains perm fuel l = Ret r -> forallb wf l = true -> wf r = true.
+  Proof. exact (union_of_wf vmerge vcontains perm vmerge_leaf perm_perm fuel l r). Qed.
+  (* only() / exclude() rebuild the marker from its atoms: the result is well shaped whatever the input *)
+  Theorem C15_only names fuel m r : monly vmerge vcontains perm fuel names m = Ret r -> wf r = true.
+  Proof. exact (monly_wf vmerge vcontains perm vmerge_leaf perm_perm names fuel m r). Qed.
+  Theorem C15_exclude name fuel m r : mexclude vmerge vcontains perm fuel name m = Ret r -> wf r = true.
+  Proof. exact (mexclude_wf vmerge vcontains perm vmerge_leaf perm_perm name fuel m r). Qed.
+  Theorem C15_reachable m : reachable vmerge vcontains perm m -> wf m = true.
+  Proof. exact (reachable_wf vmerge vcontains perm vmerge_leaf perm_perm m). Qed.
+End C15shape.
+
+Theorem C15_wf_multi l : wf (MMulti l) = true -> dist l /\ forallb (fun x => negb (is_multi x)) l = true /\ forallb wf l = true.
+Proof. exact (wf_multi l). Qed.
+Theorem C15_wf_union l : wf (MUnion l) = true -> dist l /\ forallb (fun x => negb (is_union x)) l = true /\ forallb wf l = true.
+Proof. exact (wf_union l). Qed.
+
+(* non-vacuity: a reachable nested compound, and an ill-shaped marker that wf rejects *)
+Example C15_reachable_example :
+  exists r, mor no_vm (fun _ _ => false) (fun l => l) 30 (MMulti [aP; aO]) aN = Ret r /\ is_single r = false /\ wf r = true.
+Proof. eexists. split; [vm_compute; reflexivity|]. split; vm_compute; reflexivity. Qed.
+Example C15_wf_rejects : wf (MMulti [aP; MMulti [aO; aN]]) = false /\ wf (MUnion [aP; aP]) = false.
+Proof. split; vm_compute; reflexivity. Qed.
+
+Definition C15_all := (C15_multi_of, C15_union_of, of_body_shape, C15_one_child_refuted, C15_and, C15_or, C15_multi_of_wf, C15_union_of_wf, C15_only, C15_exclude, C15_reachable, C15_wf_multi, C15_wf_union).
 Redirect "C15.assumptions" Print Assumptions C15_all.
